@@ -28,6 +28,8 @@ CHECKS = {
              text="Generated interleavings of create/open/close/abort over up to 6 files with successful and failing calls of every API family, calls on ids that are not open (stale, unused, negative, huge), close with pending requests, and one deterministic NC_MAX_NFILES+1 case; ids must follow the model, NC_EBADID must be returned without crashing, other open files must be unaffected, and whenever no file is open ncmpi_inq_malloc_size (PNC_MALLOC_TRACE) must be back to its value at script start and the ledger of MPI datatypes/communicators/infos/file handles created by library code must be balanced."),
  "C19": dict(level="exploration", section="4/C19", technique="exhaustive enumeration of truncations and single-word substitutions of seed files plus coverage-guided fuzzing (libFuzzer, ASan+UBSan) of ncmpi_open with a self-consistency and resource-bound oracle; sanitizer scan of the other properties' scripts",
              text="Part A: for seed files of all three formats every truncation point and every 4/8-byte header word x dictionary of extreme values is opened in-process (exhaustive), then libFuzzer mutates multi-field corruptions; the oracle inside the target demands a clean error or self-consistent metadata, readable first/last elements, no id/heap leak, no sanitizer report and a deterministic bound on header reads and peak heap relative to the file size. Part B: scripts from the other properties' generators are replayed on the sanitizer build and any UBSan/ASan report located in /repo/src is a violation. One known finding (signed overflow in size/offset arithmetic on absurd headers) is matched by statement class."),
+ "C14": dict(level="exploration", section="4/C14", technique="exhaustive enumeration of mode-changing call sequences to bounded depth x probe table of every API family, against a reference automaton; Hypothesis for longer histories",
+             text="All sequences of {enddef, redef, begin_indep, end_indep, close+reopen rw/ro, abort+create} up to depth 3 (quick) / 5 (thorough) from created / opened-rw / opened-ro files, each followed by ~145 probe calls from every API family with valid arguments and single argument errors; every return code must be in the documented set, permitted calls must succeed, a rejected call must leave dump, pending requests, buffer, put_size, file bytes and both mode witnesses unchanged; extra parts: isolation, k=2, safe mode, random longer histories. exhaustive:true for the enumerated depth."),
 }
 NA_REASON = "check under construction in this session; not yet claimed"
 checks = []
